@@ -33,31 +33,39 @@ theorem cleanAttic_keeps (sem : ScmSem σ κ) (st : St σ κ) (e : Loc × κ) (h
   simp only [Bool.false_eq_true, if_false]
   exact mem_foldl_rmAttic _ st e h hk
 
-/-- a selected attic directory was registered with an SCM that reports `expendable` -/
+theorem under_refl (l : Loc) : l.under l = true := by
+  have hp : ∀ p : Comps, isPrefix p p = true := by
+    intro p; induction p with
+    | nil => rfl
+    | cons a as ih => simp [isPrefix, ih]
+  cases l with
+  | ws p => simp [Loc.under, hp]
+  | attic n p => simp [Loc.under, hp]
+
+/-- every registered, existing attic directory at or below a selected one reports `expendable` -/
 theorem atticDeletable_expendable (sem : ScmSem σ κ) (st : St σ κ) (k : Nat × Comps)
     (h : k ∈ atticDeletable sem st) :
-    ∃ s, (k, some s) ∈ st.atticReg ∧ sem.expendable s (contentAt st.fs (.attic k.1 k.2)) = true := by
+    ∀ e', e' ∈ st.atticReg → atticPresent st e'.1 = true → regBelow k e'.1 = true → regExpendable sem st e' = true := by
   unfold atticDeletable at h
   rw [List.mem_map] at h
   obtain ⟨e, he, hk⟩ := h
-  obtain ⟨hm, hc⟩ := List.mem_filter.mp he
-  simp only [Bool.and_eq_true] at hc
-  obtain ⟨k', s'⟩ := e
-  simp only at hk hc; subst hk
-  cases s' with
-  | none => simp at hc
-  | some s => exact ⟨s, hm, hc.2⟩
+  obtain ⟨_, hc⟩ := List.mem_filter.mp he
+  rw [List.all_eq_true] at hc
+  subst hk
+  intro e' he' hp hb
+  have := hc e' (List.mem_filter.mpr ⟨he', hp⟩)
+  simpa [hb] using this
 
-/-- the item lies below a selected attic directory without being its checked content: a nested
-attic registration (or an unregistered nested checkout) that `bob clean --attic` does not consult -/
-def NestedInDeletable (sem : ScmSem σ κ) (work : κ → ι → Prop) (st : St σ κ) (i : ι) : Prop :=
-  ∃ key, key ∈ atticDeletable sem st ∧ ∃ l k, (l, k) ∈ st.fs ∧ work k i ∧
-    l.under (.attic key.1 key.2) = true ∧
-    ¬ (l = .attic key.1 key.2 ∧ contentAt st.fs (.attic key.1 key.2) = some k)
+/-- the item lies below a selected attic directory in a directory that is not a registered attic
+SCM (or not the content the registration refers to): nothing `bob clean --attic` can consult -/
+def UnregisteredInDeletable (sem : ScmSem σ κ) (work : κ → ι → Prop) (st : St σ κ) (i : ι) : Prop :=
+  ∃ key, key ∈ atticDeletable sem st ∧ ∃ n sub k, (Loc.attic n sub, k) ∈ st.fs ∧ work k i ∧
+    (Loc.attic n sub).under (.attic key.1 key.2) = true ∧
+    ¬ ∃ s, ((n, sub), some s) ∈ st.atticReg ∧ contentAt st.fs (.attic n sub) = some k
 
 theorem cleanAttic_present (sem : ScmSem σ κ) (work : κ → ι → Prop) (hexp : ExpClean sem work)
     (dry : Bool) (st : St σ κ) (i : ι) (h : Present work st.fs i) :
-    Present work (cleanAttic sem dry st).fs i ∨ (dry = false ∧ NestedInDeletable sem work st i) := by
+    Present work (cleanAttic sem dry st).fs i ∨ (dry = false ∧ UnregisteredInDeletable sem work st i) := by
   cases dry with
   | true => left; exact h
   | false =>
@@ -65,11 +73,20 @@ theorem cleanAttic_present (sem : ScmSem σ κ) (work : κ → ι → Prop) (hex
     by_cases hcov : ∃ key, key ∈ atticDeletable sem st ∧ l.under (.attic key.1 key.2) = true
     · obtain ⟨key, hkey, hu⟩ := hcov
       right
-      refine ⟨rfl, key, hkey, l, k, hm, hw, hu, ?_⟩
-      intro ⟨_, hc⟩
-      obtain ⟨s, _, hs⟩ := atticDeletable_expendable sem st key hkey
-      rw [hc] at hs
-      exact hexp s k i hs hw
+      cases l with
+      | ws p => simp [Loc.under] at hu
+      | attic n sub =>
+        refine ⟨rfl, key, hkey, n, sub, k, hm, hw, hu, ?_⟩
+        intro ⟨s, hreg, hc⟩
+        have hpres : atticPresent st (n, sub) = true := by
+          unfold atticPresent
+          rw [List.any_eq_true]
+          exact ⟨(.attic n sub, k), hm, under_refl _⟩
+        have hbel : regBelow key (n, sub) = true := by
+          simpa [regBelow, Loc.under] using hu
+        have := atticDeletable_expendable sem st key hkey ((n, sub), some s) hreg hpres hbel
+        simp only [regExpendable, hc] at this
+        exact hexp s k i this hw
     · left
       refine ⟨l, k, cleanAttic_keeps sem st (l, k) hm ?_, hw⟩
       intro key hkey
@@ -144,7 +161,7 @@ def EvOk (work : κ → ι → Prop) : Event σ κ → Prop
 def Lost (work : κ → ι → Prop) : Event σ κ → St σ κ → ι → Prop
   | .build sem _ _ new, st, i => PrunedBelow sem work new st.fs i
   | .cleanSrc _ dry, st, i => dry = false ∧ UntrackedWs work st i
-  | .cleanAttic sem dry, st, i => dry = false ∧ NestedInDeletable sem work st i
+  | .cleanAttic sem dry, st, i => dry = false ∧ UnregisteredInDeletable sem work st i
   | .other f, st, i => ¬ Present work (f st).fs i
 
 def NoLoss (work : κ → ι → Prop) : List (Event σ κ) → St σ κ → ι → Prop
